@@ -2,6 +2,7 @@ SPECIFICATION Spec
 CONSTANTS
   MaxLen = 3
   Pairs = TRUE
+  TiesLen = 6
   ValSet <- SignedSet
   ValSet2 = {0, 1}
   Elem <- ElemDef
